@@ -41,7 +41,15 @@
    ARun @ (OPoll k, JPoll)             l.208-211 stream.lock().poll_next_unpin(waker k)           LStream
                                        Pending -> return true (job ends) | Ready(None) -> return
                                        false | Ready(Some x) -> go on to process x
-   ARun @ (OPoll k, JProc x)           l.222-223 process.lock() ; call closure; await it          LProcess
+   ARun @ (OPoll k, JProc x)           l.222-223 process.lock(); call closure (creates the         LProcess
+                                       processing future); first poll of `process_future.await`:
+                                       an ordinary item is processed (EProcess); a SLOW item begins
+                                       (EBegin), its future wakes its own waker and returns Pending:
+                                       the poll job is suspended with the item in hand (JSusp x) and
+                                       remains the object's open operation
+   ARun @ (OPoll k, JSusp x)           the self-wake is delivered and the suspended poll job is    LNone
+                                       re-polled (by whichever thread): the item is finished
+                                       (EProcess) and the loop goes on with poll_next
    ARun @ (OPoll k, JClear)            l.148 poll_fn.lock() := None                               LPollFn
    ARun @ (OPoll k, JEnd)              the job's future has returned; ObjExec finishes the        LNone
                                        operation (Finish).  Between the Pending poll_next and
@@ -65,7 +73,11 @@
      affects the progress of that thread).
    * the hand-over of old_poll_fn to the chute (an enqueue on the chute's own queue) is merged into the WTake step;
      chute jobs that carry `None` are not represented.
-   * `process_future.await` is one step (the processing future is assumed not to suspend), as in the task statement.
+   * a processing future suspends at most once (slow items), by waking ITS OWN task waker (the waker of the poll job's
+     scheduler future, not a PipeWaker) before it returns Pending.  The model ASSUMES this self-wake is delivered, i.e.
+     that the scheduler re-polls the suspended job: ARun is enabled at JSusp.  That a wake-up for a suspended future
+     operation is never lost is property C06 of the scheduler layers, not of the pipe.  Delivery of the wake and the
+     re-poll are one step; nothing of the pipe's state is touched in between.
    * finishing an operation (EFinish) and dequeuing the next one (EStart) are separate ARun steps.
    * the input's own internal lock is taken inside the `stream` mutex section; both are the one LStream step; the
      environment's updates of the input are atomic steps (LNone).
@@ -76,7 +88,10 @@ From RecordUpdate Require Import RecordUpdate.
 
 Inductive label := LPollFn | LStream | LProcess | LPipeWaker | LNone.
 
-Definition item := nat.
+(* an item is its number plus the script of its processing: a SLOW item's processing future suspends once in the middle
+   (it wakes its own waker and returns Pending, holding the object's exclusive access), an ordinary one completes at once *)
+Definition item := (nat * bool)%type.
+Definition is_slow (x : item) : bool := snd x.
 
 (* operations of the object *)
 Inductive op := OPoll (k : nat) | OOther (n : nat) | OFree.
@@ -91,10 +106,10 @@ Definition is_poll (o : op) : bool := match o with OPoll _ => true | _ => false 
 Definition is_free (o : op) : bool := match o with OFree => true | _ => false end.
 
 (* program counter of the running operation *)
-Inductive jpc := JNew | JLockPf | JPoll | JProc (x : item) | JClear | JEnd.
+Inductive jpc := JNew | JLockPf | JPoll | JProc (x : item) | JSusp (x : item) | JClear | JEnd.
 
 (* ghost log *)
-Inductive event := EStart (o : op) | EFinish (o : op) | EProcess (x : item).
+Inductive event := EStart (o : op) | EFinish (o : op) | EBegin (x : item) | EProcess (x : item).
 
 (* PipeWaker.context *)
 Inductive wk := WkFresh | WkLive | WkTaken.
@@ -121,7 +136,7 @@ Definition is_env (a : actor) : bool :=
 (* who keeps the stream and the processing closure alive: the poll_fn slot, the chute job, the loop future of a
    running poll job *)
 Definition in_loop (r : option (op * jpc)) : bool :=
-  match r with Some (OPoll _, JPoll) | Some (OPoll _, JProc _) => true | _ => false end.
+  match r with Some (OPoll _, JPoll) | Some (OPoll _, JProc _) | Some (OPoll _, JSusp _) => true | _ => false end.
 Definition holders (s : state) : bool := s.(pollfn) || s.(chute) || in_loop s.(running).
 Definition upd_rel (s : state) : state := if holders s then s else s <| released := true |>.
 
@@ -163,7 +178,10 @@ Definition step (s : state) (a : actor) : option state :=
           | [] => if s.(ended) then Some (upd_rel (s <| running := Some (OPoll k, JClear) |>))
                   else Some (upd_rel (s <| reg := Some k |> <| running := Some (OPoll k, JEnd) |>))
           end
-      | Some (OPoll k, JProc x) => Some (s <| log := s.(log) ++ [EProcess x] |> <| running := Some (OPoll k, JPoll) |>)
+      | Some (OPoll k, JProc x) =>
+          if is_slow x then Some (s <| log := s.(log) ++ [EBegin x] |> <| running := Some (OPoll k, JSusp x) |>)
+          else Some (s <| log := s.(log) ++ [EProcess x] |> <| running := Some (OPoll k, JPoll) |>)
+      | Some (OPoll k, JSusp x) => Some (s <| log := s.(log) ++ [EProcess x] |> <| running := Some (OPoll k, JPoll) |>)
       | Some (OPoll k, JClear) => Some (upd_rel (s <| pollfn := false |> <| running := Some (OPoll k, JEnd) |>))
       | Some (OPoll k, JEnd) => Some (finish s (OPoll k))
       | Some (OOther n, _) => Some (finish s (OOther n))
@@ -215,6 +233,7 @@ Definition step_label (s : state) (a : actor) : option label :=
       | Some (OPoll _, JLockPf) => Some LPollFn
       | Some (OPoll _, JPoll) => Some LStream
       | Some (OPoll _, JProc _) => Some LProcess
+      | Some (OPoll _, JSusp _) => Some LNone
       | Some (OPoll _, JClear) => Some LPollFn
       | Some (OPoll _, JEnd) => Some LNone
       | Some (_, _) => Some LNone
@@ -243,7 +262,7 @@ Definition run (s : state) (tr : list actor) : option state := foldl (fun os a =
 
 (* ---------- observations used by the theorems ---------- *)
 Definition processed (l : list event) : list item := omap (fun e => match e with EProcess x => Some x | _ => None end) l.
-Definition inhand (s : state) : list item := match s.(running) with Some (OPoll _, JProc x) => [x] | _ => [] end.
+Definition inhand (s : state) : list item := match s.(running) with Some (OPoll _, JProc x) | Some (OPoll _, JSusp x) => [x] | _ => [] end.
 
 (* exclusivity checker: reads the log from the oldest event; state = the operation currently open *)
 Definition excl_step (st : option (option op)) (e : event) : option (option op) :=
@@ -251,10 +270,24 @@ Definition excl_step (st : option (option op)) (e : event) : option (option op) 
   match e, cur with
   | EStart o, None => Some (Some o)
   | EFinish o, Some o' => if op_eqb o o' then Some None else None
-  | EProcess _, Some (OPoll k) => Some (Some (OPoll k))
+  | EProcess _, Some (OPoll k) | EBegin _, Some (OPoll k) => Some (Some (OPoll k))
   | _, _ => None
   end.
 Definition excl (l : list event) : option (option op) := foldl excl_step (Some None) l.
+
+(* suspension checker: a Begin event is IMMEDIATELY followed by the Process event of the same item (nothing at all is
+   logged for the object while an item is suspended) or is the last event; state = the item currently suspended *)
+Definition item_eqb (a b : item) : bool := Nat.eqb (fst a) (fst b) && Bool.eqb (snd a) (snd b).
+Definition susp_step (st : option (option item)) (e : event) : option (option item) :=
+  cur ← st;
+  match cur, e with
+  | None, EBegin x => if is_slow x then Some (Some x) else None
+  | None, _ => Some None
+  | Some x, EProcess y => if item_eqb x y then Some None else None
+  | Some _, _ => None
+  end.
+Definition susp_ok (l : list event) : option (option item) := foldl susp_step (Some None) l.
+Definition susp_item (s : state) : option item := match s.(running) with Some (OPoll _, JSusp x) => Some x | _ => None end.
 
 (* a wake thread holds a strong reference / is inside PipeContext::poll *)
 Definition holds_strong (w : wpc) : bool := match w with WEnq | WDropRc => true | _ => false end.
@@ -318,7 +351,10 @@ Definition no_free (l : list op) : bool := forallb (fun o => negb (is_free o)) l
 Definition run_free (r : option (op * jpc)) : bool := match r with Some (OFree, _) => true | _ => false end.
 
 Definition reachable (items : list item) (s : state) : Prop := exists tr, run (init items) tr = Some s.
-Definition is_process (e : event) : bool := match e with EProcess _ => true | _ => false end.
+Definition is_process (e : event) : bool := match e with EProcess _ | EBegin _ => true | _ => false end.
+(* items whose processing has begun and suspended (slow items only) *)
+Definition begun (l : list event) : list item := omap (fun e => match e with EBegin x => Some x | _ => None end) l.
+Definition suspended (s : state) : list item := match s.(running) with Some (OPoll _, JSusp x) => [x] | _ => [] end.
 
 (* ---------- a bound on the number of steps the pipe, the object and the chute can take without the environment ---------- *)
 Fixpoint lsum {A} (f : A -> nat) (l : list A) : nat := match l with [] => 0 | x :: l' => f x + lsum f l' end.
@@ -328,11 +364,11 @@ Definition rcost (r : option (op * jpc)) : nat :=
   match r with
   | None => 0
   | Some (OPoll _, JNew) => 5 | Some (OPoll _, JLockPf) => 4 | Some (OPoll _, JPoll) => 3
-  | Some (OPoll _, JProc _) => 4 | Some (OPoll _, JClear) => 2 | Some (OPoll _, JEnd) => 1
+  | Some (OPoll _, JProc _) => 5 | Some (OPoll _, JSusp _) => 4 | Some (OPoll _, JClear) => 2 | Some (OPoll _, JEnd) => 1
   | Some (_, _) => 1
   end.
 Definition measure (s : state) : nat :=
-  lsum wcost s.(wakes) + 6 * length s.(opq) + rcost s.(running) + 2 * length s.(ready) + Nat.b2n s.(chute).
+  lsum wcost s.(wakes) + 6 * length s.(opq) + rcost s.(running) + 3 * length s.(ready) + Nat.b2n s.(chute).
 
 (* ---------- one-shot wakers ---------- *)
 Definition poll_id (o : op) : option nat := match o with OPoll k => Some k | _ => None end.
